@@ -244,6 +244,21 @@ def scenario(idm, rng, kind):
 
         for _ in range(nthreads):
             sc["procs"].append([anyop() for _ in range(rng.choice([1, 2, 3]))])
+    elif kind == "set-race":
+        # two processes bind the SAME still-unassigned id (force-set against force-set, or against a request whose subspace
+        # has this id as its only free one): both calls succeed, the later one wins
+        if rng.random() < 0.5 or size > 600:
+            x = member_ids(idm, sps["8"], Sub(0, 256), 1, rng)[0]
+            sc["procs"] = [[{"k": "set", "id": x, "desc": "A", "t": clk.next()}], [{"k": "set", "id": x, "desc": "B", "t": clk.next()}]]
+            if nthreads == 3:
+                sc["procs"].append([{"k": "set", "id": x, "desc": "C", "t": clk.next()}, {"k": "info", "id": x}])
+        else:
+            ids = list(sp_small.all_ids(small))
+            rng.shuffle(ids)
+            x = ids[0]
+            for i, id_ in enumerate(ids[1:]):
+                sc["init"].append({"k": "set", "id": id_, "desc": f"old{i}", "t": clk.next()})
+            sc["procs"] = [[{"k": "set", "id": x, "desc": "A", "t": clk.next()}], [get("N", sp_small, small)]]
     elif kind == "open":
         sc["procs"] = [[{"k": "set", "id": 10 + i, "desc": f"o{i}", "t": clk.next()}, {"k": "info", "id": 10}] for i in range(nthreads)]
         sc["schedule_open"] = True
@@ -252,7 +267,7 @@ def scenario(idm, rng, kind):
     return sc
 
 
-KINDS = ["same-desc-small", "same-desc-large", "large-cleanup", "diff-desc", "get-vs-admin", "upload", "mark-race", "reads-race", "countall", "mix", "open"]
+KINDS = ["same-desc-small", "same-desc-large", "large-cleanup", "diff-desc", "get-vs-admin", "upload", "mark-race", "set-race", "reads-race", "countall", "mix", "open"]
 
 
 def all_strings(sc):
